@@ -529,6 +529,7 @@ def cname(n):
     return re.sub(r'[^A-Za-z0-9_]', lambda m: '_%02x' % ord(m.group(0)), n)
 
 PREFIX = 'T'
+DIVREM_NARROW = False   # --divrem-narrow (opt-in per harness family via LL2C_FLAGS in spec.py)
 def lname(n): return 'v_' + cname(n)
 def gsym(n):
     """C symbol of global n: shared name for external linkage, prefixed for TU-local"""
@@ -708,6 +709,7 @@ def emit_func(f):
     blockmap = {b['name']: b for b in f.blocks}
     for bi, b in enumerate(f.blocks):
         out.append(' L_%s: ;' % cname(b['name']))
+        blk_divs = {}   # (op, type, a, b) -> C name of the quotient already computed in this block (--divrem-narrow)
         for I in b['insts']:
             d = lname(I.dst) if I.dst else None
             op = I.op
@@ -716,12 +718,33 @@ def emit_func(f):
             if op in ('add','sub','mul','and','or','xor'):
                 c = {'add':'+','sub':'-','mul':'*','and':'&','or':'|','xor':'^'}[op]
                 out.append('  %s = %s;' % (d, mask(I.ty, '(%s)(%s %s %s)' % (cty(I.ty), V(I.ty, I.a), c, V(I.ty, I.b)))))
-            elif op in ('udiv','urem'):
+            elif op in ('udiv','urem') and not (op == 'urem' and DIVREM_NARROW and ('udiv', repr(I.ty), I.a, I.b) in blk_divs and resolve(I.ty).bits == sizeof(I.ty) * 8):
                 c = '/' if op == 'udiv' else '%'
                 bz = V(I.ty, I.b)
                 e = '(%s)(%s %s %s)' % (cty(I.ty), V(I.ty, I.a), c, bz)
                 if I.b[0] != 'int' or I.b[1] == 0: e = '%s == 0 ? ll_divzero_%s() : %s' % (bz, cty(I.ty), e)
                 out.append('  %s = %s;' % (d, e))
+                if op == 'udiv' and DIVREM_NARROW: blk_divs[('udiv', repr(I.ty), I.a, I.b)] = d
+            elif op in ('sdiv','srem') and DIVREM_NARROW and resolve(I.ty).bits == sizeof(I.ty) * 8:
+                # opt-in (--divrem-narrow): same-width signed division instead of the double-width one (same values: MIN / -1
+                # still wraps to MIN, MIN % -1 is 0); x % y directly after x / y in the same block reuses that quotient, so
+                # the solver sees one divider circuit for the pair
+                c = '/' if op == 'sdiv' else '%'
+                bz = V(I.ty, I.b); az = V(I.ty, I.a)
+                st = sty(sizeof(I.ty) * 8); ut = cty(I.ty)
+                key = ('sdiv', repr(I.ty), I.a, I.b)
+                if op == 'srem' and key in blk_divs:
+                    e = '(%s)(%s - (%s)(%s * %s))' % (ut, az, ut, blk_divs[key], bz)
+                else:
+                    e = '(%s)((%s)%s %s (%s)%s)' % (ut, st, az, c, st, bz)
+                    if I.b[0] != 'int' or (I.b[1] & ((1 << resolve(I.ty).bits) - 1)) == (1 << resolve(I.ty).bits) - 1:
+                        minv = '((%s)1 << %d)' % (ut, resolve(I.ty).bits - 1)
+                        e = '(%s == %s && %s == (%s)~(%s)0) ? %s : %s' % (az, minv, bz, ut, ut, minv if op == 'sdiv' else '(%s)0' % ut, e)
+                    if I.b[0] != 'int' or I.b[1] == 0: e = '%s == 0 ? ll_divzero_%s() : (%s)' % (bz, ut, e)
+                    if op == 'sdiv': blk_divs[key] = d
+                out.append('  %s = %s;' % (d, e))
+            elif op == 'urem' and DIVREM_NARROW and ('udiv', repr(I.ty), I.a, I.b) in blk_divs and resolve(I.ty).bits == sizeof(I.ty) * 8:
+                out.append('  %s = (%s)(%s - (%s)(%s * %s));' % (d, cty(I.ty), V(I.ty, I.a), cty(I.ty), blk_divs[('udiv', repr(I.ty), I.a, I.b)], V(I.ty, I.b)))
             elif op in ('sdiv','srem'):
                 c = '/' if op == 'sdiv' else '%'
                 bz = V(I.ty, I.b); az = V(I.ty, I.a)
@@ -1024,12 +1047,14 @@ def emit_global(name, t, init, const, out, dyn):
 PRELUDE = '#include "ll_prelude.h"\n'
 
 def main():
-    global PREFIX
+    global PREFIX, DIVREM_NARROW
     import argparse
     ap = argparse.ArgumentParser()
     ap.add_argument('input'); ap.add_argument('--prefix', default='T'); ap.add_argument('-o', dest='out', default=None)
+    ap.add_argument('--divrem-narrow', action='store_true')
     a = ap.parse_args()
     PREFIX = a.prefix
+    DIVREM_NARROW = a.divrem_narrow
     text = open(a.input).read()
     parse_module(text)
     bodies = []; sigs = []
